@@ -3,7 +3,7 @@ from common import T_COMMON
 CFG = dict(
     modules=["PolyVerif.Props.C02", "PolyVerif.Props.C02Delaunay"],
     theorems=["prim_wf", "uvSphere_wf", "uvSphereUnwelded_wf", "hemisphere_wf", "circle_wf", "cone_wf", "cylinder_wf", "cylinder_nocaps_wf",
-              "extrudeShape_wf", "screw_wf", "extrudeLine_wf", "extrudePolygon_wf", "marchBlock_wf", "march_wf", "quad_wf", "cube_wf", "cubeUnwelded_wf",
+              "extrusions_total", "extrudeShape_wf", "screw_wf", "extrudeLine_wf", "extrudePolygon_wf", "marchBlock_wf", "march_wf", "quad_wf", "cube_wf", "cubeUnwelded_wf",
               "unweld_wf", "removeUnreferenced_wf", "toPointCloud_wf", "flip_wf", "setIndices_wf",
               "append_wf", "setAttr_wf", "setAttr_delete_wf", "modifyAttr_wf", "mapAttr_wf", "setNormals_wf", "filterAttr_wf",
               "filterAttr_rejects_non_point", "crop_wf", "removeNullFaces_wf",
